@@ -4,7 +4,8 @@
 # worktree of /repo HEAD and the check is pointed at it (VERIF_REPO); evidence and replay files go to scratch too.
 # (The registered commands, and lib/seed_run.sh, always use /repo itself.)
 set -u
-S=/verif/seeded/$1; P=$2; T=${3:-quick}
+ROOT=$(cd "$(dirname "$0")/.." && pwd)
+S=$ROOT/seeded/$1; P=$2; T=${3:-quick}
 W=/var/tmp/seedpar/$1
 export GOFLAGS=-mod=mod GOPROXY=off GOSUMDB=off GOTOOLCHAIN=local
 rm -rf $W; mkdir -p /var/tmp/seedpar; git -C /repo worktree prune
@@ -12,7 +13,7 @@ git -C /repo worktree add -q --detach $W/repo HEAD || exit 9
 trap 'git -C /repo worktree remove --force $W/repo; rm -rf $W' EXIT
 ( cd $W/repo && git apply $S/patch.diff ) || { echo "$1: patch does not apply"; exit 8; }
 mkdir -p $W/evid $W/replays
-VERIF_REPO=$W/repo VERIF_EVID=$W/evid VERIF_REPLAYS=$W/replays /verif/check $P --tier $T > /var/tmp/seedpar.$1.$P.log 2>&1
+VERIF_REPO=$W/repo VERIF_EVID=$W/evid VERIF_REPLAYS=$W/replays $ROOT/check $P --tier $T > /var/tmp/seedpar.$1.$P.log 2>&1
 rc=$?
 echo "$1 vs $P ($T): exit $rc; $(grep -c '^VIOLATION' /var/tmp/seedpar.$1.$P.log) violation line(s); $(grep -c '^KNOWN-FINDING' /var/tmp/seedpar.$1.$P.log) known; $(grep -m1 'rejected conjuncts' /var/tmp/seedpar.$1.$P.log | sed 's/.*conjuncts: //' | cut -c1-120)"
 exit $rc
